@@ -12,7 +12,7 @@ LEVEL = "translation_validation"
 ITEM_CAP = {"quick": 180, "thorough": 900}
 FUNCS = ["qlasskit.decompiler.decopt.circuit_boolean_optimizer (no preserve list)", "decopt.custom_simplify_logic2", "qlasskit.compiler.exprs_to_quantum -> InternalCompiler.compile(uncompute=False)", "Decompiler.decompile"]
 BOUNDS = {
-    "quick": "all classical sequences of length <= 3 on 3 qubits over {X,CX,CCX,barrier} (13 symbols), all H-interleaved sequences of length <= 2 + seed slice of length 4, 200 fixed-seed circuits on 3-5 qubits over the full gate set, 15 compiled corpus functions; basis state symbolic",
+    "quick": "all classical sequences of length <= 4 on 3 qubits over {X,CX,CCX,barrier} (13 symbols), all H-interleaved sequences of length <= 2 + seed slice of length 4, 200 fixed-seed circuits on 3-5 qubits over the full gate set, 15 compiled corpus functions; basis state symbolic",
     "thorough": "all sequences of length <= 4 over the 16-symbol alphabet, 1000 fixed-seed circuits, 60 compiled corpus functions",
 }
 OUTSIDE = "circuits enumerated; preserve= lists; compilers other than internal; non-classical circuits are compared exactly in Z[zeta_N] on <= 6 qubits (phases must be multiples of 2pi/128)"
@@ -99,7 +99,7 @@ def make_items(tier, seed):
         for b in circorp.enum_batches(A16, 2, 2):
             items.append(dict(b, fam="enum16", nq=3))
     else:
-        for b in circorp.enum_batches(Ac, 1, 2):
+        for b in circorp.enum_batches(Ac, 2, 2):
             items.append(dict(b, fam="enumc", nq=3))
         for b in circorp.enum_batches(A16, 1, 1):
             items.append(dict(b, fam="enum16", nq=3))
@@ -115,6 +115,12 @@ def make_items(tier, seed):
         {"nq": 3, "gates": [["cx", [0, 2]], ["cx", [1, 2]], ["cx", [0, 2]], ["x", [2]], ["x", [2]], ["cx", [1, 2]]]},
         {"nq": 4, "gates": [["mcx", [0, 1, 2, 3]], ["cx", [0, 3]], ["mcx", [0, 1, 2, 3]]]},
         {"nq": 3, "gates": [["h", [0]], ["cx", [0, 1]], ["cx", [1, 0]], ["cx", [0, 1]], ["h", [1]]]},
+        {"nq": 3, "gates": [["cx", [0, 1]], ["cx", [1, 0]], ["cx", [0, 1]], ["x", [2]]]},
+        {"nq": 3, "gates": [["x", [2]], ["cx", [0, 1]], ["cx", [1, 0]], ["cx", [0, 1]]]},
+        {"nq": 3, "gates": [["cx", [0, 1]], ["cx", [1, 0]], ["x", [2]], ["cx", [0, 1]]]},
+        {"nq": 4, "gates": [["cx", [0, 1]], ["cx", [1, 0]], ["cx", [0, 1]], ["cx", [2, 3]]]},
+        {"nq": 4, "gates": [["cx", [0, 1]], ["cx", [1, 0]], ["cx", [0, 1]], ["ccx", [0, 1, 2]], ["x", [3]]]},
+        {"nq": 3, "gates": [["cx", [1, 2]], ["cx", [2, 1]], ["cx", [1, 2]], ["x", [0]], ["x", [1]]]},
         {"nq": 3, "gates": [["x", [1]], ["barrier", []], ["cx", [1, 0]], ["barrier", []], ["cx", [1, 0]], ["z", [0]], ["x", [1]]]},
     ]
     items.append({"fam": "special", "circuits": special})
@@ -125,7 +131,7 @@ def make_items(tier, seed):
         items.append({"fam": "compiled", "progs": progs[i : i + 3]})
     if tier == "thorough":
         return items
-    extra = [dict(b, fam="enumc", nq=3) for b in circorp.enum_batches(Ac, 2, 2)]
+    extra = [dict(b, fam="enum16", nq=3) for b in circorp.enum_batches(A16, 2, 2)]
     return slice_quick(items + extra, seed, len(items), 10)
 
 
